@@ -70,3 +70,20 @@ func cloneBytes(b []byte) []byte {
 	copy(c, b)
 	return c
 }
+
+// uniformInt draws an integer in [0, n) with a flat distribution. rapid biases
+// integer generators towards small values, which starves e.g. registers late in
+// a pool; scrambling a 64-bit draw flattens the distribution and still shrinks
+// towards index 0.
+func uniformInt(t *rapid.T, n int, label string) int {
+	if n <= 1 {
+		return 0
+	}
+	x := rapid.Uint64().Draw(t, label)
+	if x == 0 {
+		return 0
+	}
+	x *= 0x9e3779b97f4a7c15
+	x ^= x >> 29
+	return int((x >> 16) % uint64(n))
+}
